@@ -575,6 +575,13 @@ WithRefs(ents, new) ==
 \* F17, or game logic despawning a replicated entity).  Records are applied in wire order.
 DeadMapped(ents, e) == e \in DOMAIN ents /\ ~ents[e].alive
 
+\* components of a record written over those the entity has.  A relation whose target is mapped but dead on
+\* the client cannot be established: Bevy removes a relationship component that points to a missing entity
+\* (again only reachable after F17 / F24 or a locally killed pre-spawned entity)
+Merge(ents, old, new) ==
+    LET all == [k \in (DOMAIN old) \cup (DOMAIN new) |-> IF k \in DOMAIN new THEN new[k] ELSE old[k]]
+    IN IF REL \in DOMAIN new /\ DeadMapped(ents, new[REL]) THEN Without(all, REL) ELSE all
+
 \* [ents, ok]
 ApplyRecords(ents0, ord, One(_, _)) ==
     FoldSeq(LAMBDA acc, e : IF ~acc.ok THEN acc
@@ -589,8 +596,7 @@ ApplyUpdate(cs, m) ==
         oneChg(ents, e) ==
             LET new == m.chg[e]
                 e1 == TouchEnt(WithRefs(ents, new), e, m.tick)
-            IN [e1 EXCEPT ![e].comps = [k \in (DOMAIN @) \cup (DOMAIN new) |->
-                                           IF k \in DOMAIN new THEN new[k] ELSE @[k]]]
+            IN [e1 EXCEPT ![e].comps = Merge(ents, @, new)]
     IN Then(ApplyDespawns(ApplyMappings([cs EXCEPT !.updTick = m.tick], m), m), LAMBDA c1 :
        Then(ApplyRecords(c1.ents, m.rord, oneRem), LAMBDA r1 :
        Then(IF r1.ok THEN ApplyRecords(r1.ents, m.ord, oneChg) ELSE r1, LAMBDA r2 :
@@ -614,8 +620,7 @@ ApplyMutate(ents, b) ==
             ELSE IF ~es[e].alive \/ es[e].hist < 0 THEN [acc EXCEPT !.ok = FALSE]
             ELSE IF b.tick > es[e].hist
                  THEN [acc EXCEPT !.ents = [WithRefs(es, b.ents[e]) EXCEPT ![e].hist = b.tick,
-                                 ![e].comps = [k \in (DOMAIN @) \cup (DOMAIN b.ents[e]) |->
-                                                  IF k \in DOMAIN b.ents[e] THEN b.ents[e][k] ELSE @[k]]]]
+                                                                       ![e].comps = Merge(es, @, b.ents[e])]]
                  ELSE [acc EXCEPT !.outdated = TRUE]
     IN FoldSeq(one, [ents |-> ents, ok |-> TRUE, outdated |-> FALSE], b.ord)
 
